@@ -82,5 +82,60 @@ func BcastStress(n int) StressResult {
 		}
 		cancel()
 	}
+	// a stale receive function (its key was freed) runs while a value for ANOTHER key is being handed
+	// over: it must return its own key's cancellation, never the other key's value
+	for i := 0; i < n && res.Violates == ""; i++ {
+		b := utils.NewBroadcaster[string]()
+		ctx := context.Background()
+		stale, err := b.Receive("a", ctx)
+		if err != nil {
+			res.Violates = fmt.Sprintf("stale round %d: Receive a failed: %v", i, err)
+			break
+		}
+		b.Free("a", errors.New("freed"))
+		fresh, err := b.Receive("b", ctx)
+		if err != nil {
+			res.Violates = fmt.Sprintf("stale round %d: Receive b failed: %v", i, err)
+			break
+		}
+		go b.Publish("b", "value-for-b")
+		for j := 0; j < i%5; j++ {
+			runtime.Gosched()
+		}
+		if i%2 == 0 {
+			time.Sleep(50 * time.Microsecond) // let the publisher reach its hand-off
+		}
+		sdone := make(chan string, 1)
+		go func() {
+			v, err := stale()
+			if err == nil && v != nil {
+				sdone <- "value " + *v
+			} else {
+				sdone <- "error"
+			}
+		}()
+		select {
+		case r := <-sdone:
+			res.Kinds["stale-"+r[:5]]++
+			if r != "error" {
+				res.Violates = fmt.Sprintf("stale round %d: the receive function of freed key a returned %q, published on key b", i, r)
+			}
+		case <-time.After(300 * time.Millisecond):
+			res.Violates = fmt.Sprintf("stale round %d: the receive function of a freed key blocks", i)
+		}
+		if res.Violates == "" {
+			fdone := make(chan bool, 1)
+			go func() { v, err := fresh(); fdone <- (err == nil && v != nil && *v == "value-for-b") }()
+			select {
+			case ok := <-fdone:
+				if !ok {
+					res.Violates = fmt.Sprintf("stale round %d: the receiver of key b did not get the value published on b", i)
+				}
+			case <-time.After(300 * time.Millisecond):
+				res.Violates = fmt.Sprintf("stale round %d: the receiver of key b never got the value published on b", i)
+			}
+		}
+		b.Close(nil)
+	}
 	return res
 }
